@@ -56,8 +56,20 @@ def build_jobs(chk, opts, nrand_quick=80000, nrand_thorough=2000000, grid=False)
         cases += index_grid()
     allc = cases + rnd
     rng.shuffle(allc)   # balance the chunks
+    allc = subsample(chk, allc)
     jobs = [(c, opts) for c in core.chunked(allc, 256)]
     return jobs
+
+
+def subsample(chk, cases):
+    """YPV_FRACTION=<0..1> runs a seeded sample of the case list (used by the mutation self-tests)."""
+    import os
+    f = float(os.environ.get("YPV_FRACTION", "1") or 1)
+    if f >= 1:
+        return cases
+    chk.exhaustive = False
+    chk.notes.append("YPV_FRACTION=%s: sampled run, not the registered check" % f)
+    return cases[:max(1, int(len(cases) * f))]
 
 
 def index_grid():
@@ -121,7 +133,7 @@ def run(chk: core.Check):
     opts = {"c02": False, "slash": True}
     if chk.replay_in:
         return replay(chk, opts)
-    jobs = build_jobs(chk, opts)
     chk.exhaustive = True
+    jobs = build_jobs(chk, opts)
     absorb(chk, core.pmap(ev.compare_chunk, jobs))
     return chk
